@@ -327,6 +327,31 @@ def run(res, f, tier):
         else:
             why = "unrecognised escaping %s" % shape[1]
     ob(esc_ok, "C16|leaf|String", "string literals must be printed between quotes with \\ and \" escaped (inverse of the unescape table): %s" % why, {"template": shape})
+    # ---- names: the printer writes identifiers, function names, symbol names, field steps and map keys bare, so every
+    # string the parser can put into such a slot must be an IDENT lexeme (taken from an IDENT terminal unchanged)
+    g_all, P_all = extracted_grammar(f)
+    nts_all = set(l for l, _, _ in P_all)
+
+    def ident_only(sym, seen=()):
+        if sym == "IDENT":
+            return True
+        if sym not in nts_all or sym in seen:
+            return False
+        prods = [(r, t) for l, r, t in P_all if l == sym]
+        return bool(prods) and all(len(r) == 1 and t == "$0" and ident_only(r[0], seen + (sym,)) for r, t in prods)
+
+    SLOT = re.compile(r"\b(Reference|Symbol|Function)\(\$(\d+)|\bIndex\([^()]*(?:\([^()]*\))?[^()]*,\s*Map\(\$(\d+)\)|\btuple\(\$(\d+),")
+    slots = 0
+    for l, r, t in P_all:
+        if l in ("MetaItem", "Rule") or l.startswith("(<MetaItem"):
+            continue     # rule metadata keys are not part of an expression's rendering
+        for m_ in SLOT.finditer(t):
+            pos = next(int(x) for x in m_.groups()[1:] if x is not None)
+            slots += 1
+            src = r[pos] if pos < len(r) else "?"
+            ob(ident_only(src), "C16|name-slot|%s|%s" % (l, (m_.group(1) or ("Index.Map" if "Map($" in m_.group(0) else "map key"))),
+               "in production %s -> %s the name comes from %s, which is not an identifier token taken unchanged, but names are printed bare: %s" % (l, " ".join(r), src, t))
+    res.floor("name slots of the grammar (reference, symbol, function, field step, map key)", slots, 5)
     # ---- token boundaries
     LITERAL_LAST = {"String": "STRING", "Int": "INT", "Float": "FLOAT", "Decimal": "DECIMAL", "Bool": "TRUE", "None": "KWD_NONE"}
     last = {V: set() for V in expr_kinds}
@@ -391,5 +416,5 @@ def run(res, f, tier):
         "exhaustive": True,
     }
     res.assumptions = ["grandchildren are atoms in each composition: a defect that needs three nested exposed renderings to show is not distinguished (none of today's templates is exposed on both sides except the bitwise ones, already reported)",
-                       "Display of i128 / f64 / Decimal prints the languages of the PRINTED table; identifiers, map keys and field names in the parser's image are IDENT lexemes that are not keywords",
+                       "Display of i128 / f64 / Decimal prints the languages of the PRINTED table; that a name taken from an IDENT token is not a keyword is the lexer's longest-match/priority rule (C08)",
                        "the grammar equals the precedence table (C07) and is unambiguous (lalrpop LR(1))"]
